@@ -38,9 +38,9 @@ def inputs(ctx, rng):
     progs = progcheck.program_set(random.Random(ctx.seed + 17), 2)
     for v in sorted(core.ORACLES):
         for name in sorted(progs):
-            if name in progrun.HEAVY:
+            if name in progrun.HEAVY and not (name == "extarg3" and v in ((3, 8), (3, 13))):
                 continue
-            if not ctx.thorough and name not in ("closure2", "loops_jumps", "try_with", "consts", "manylines", "generators", "kinds_in_sets", "shared_sets"):
+            if not ctx.thorough and name not in ("closure2", "loops_jumps", "try_with", "consts", "manylines", "generators", "kinds_in_sets", "shared_sets", "extarg3"):
                 continue
             o = progcheck.oracle_compile(v, name, progs[name], oracles)
             if "pyc" in o:
